@@ -152,7 +152,8 @@ OnWrite(g, e) ==
       isHelp == ln.cls = "help"
       isMal == ln.cls \in {"unknown", "badarg", "convfail", "nonpublic"}
       vs == Chk("C18.one", s, e.nl)
-            \cup (IF ln.twinkind = "value" THEN Chk("C17.reply", s, e.text = Expected(ln.twk, ln.twin) \o "\n") ELSE {})
+            \* (the twin performed the call when the line was sent: comparable only if the session was not busy then)
+            \cup (IF ln.twinkind = "value" /\ ln.alone THEN Chk("C17.reply", s, e.text = Expected(ln.twk, ln.twin) \o "\n") ELSE {})
             \cup (IF isHelp THEN Chk("C16.help", s, e.usage = ln.cmd /\ e.hashelp) ELSE {})
             \cup (IF isHelp /\ ln.doc # "" THEN Chk("C16.describes", s, e.hasdoc) ELSE {})
             \cup (IF ln.cls = "nonpublic" THEN Chk("C16.nonpublic", s, e.invalid) ELSE {})
